@@ -39,18 +39,18 @@ type (
 		X    SExpr
 		Type string
 	}
-	SQVar struct{ Name, Type string }
+	SQVar  struct{ Name, Type string }
 	SQuant struct {
 		Forall bool
 		Vars   []SQVar
 		Body   SExpr
 	}
-	SLet  struct {
+	SLet struct {
 		Name string
 		Val  SExpr
 		Body SExpr
 	}
-	SHash struct{ Loop int } // #i (innermost = 0) or #i@k (loop ordinal k)
+	SHash struct{ Loop int }    // #i (innermost = 0) or #i@k (loop ordinal k)
 	SType struct{ Name string } // a type used as an argument: is(x, T)
 )
 
